@@ -155,7 +155,7 @@ func (w *World) inlineCandidates() map[*ssa.Function][]*ssa.Call {
 // prepareInlining decides which helpers are spliced. Roles are resolved first on the plain graphs
 // (a renamed anchor is not a fresh helper), by running every check once with a discarded report.
 func prepareInlining(w *World) {
-	w.inlSites, w.cur, w.gsub = nil, nil, nil
+	w.inlSites, w.cur, w.gsub, w.fgflat = nil, nil, nil, nil
 	w.fgis = map[*ssa.Function]*FG{}
 	cands := w.inlineCandidates()
 	if len(cands) == 0 {
@@ -209,6 +209,7 @@ func prepareInlining(w *World) {
 		}
 	}
 	w.fgis = map[*ssa.Function]*FG{}
+	w.fgflat = nil
 	// summaries and role caches stay: they were computed on the plain graphs and remain valid
 }
 
@@ -249,6 +250,14 @@ func (w *World) subParam(p *ssa.Parameter) (ssa.Value, bool) {
 	return nil, false
 }
 
+// subCallMulti: the result tuples of a spliced helper with several returns.
+func (w *World) subCallMulti(c *ssa.Call) [][]ssa.Value {
+	if w.cur != nil && w.cur.csubM != nil {
+		return w.cur.csubM[c]
+	}
+	return nil
+}
+
 func (w *World) subCall(c *ssa.Call) ([]ssa.Value, bool) {
 	if w.cur != nil {
 		if rs, ok := w.cur.csub[c]; ok {
@@ -283,7 +292,43 @@ func (w *World) FGI(fn *ssa.Function) *FG {
 	if len(w.inlSites) == 0 {
 		return w.FG(fn)
 	}
-	if g, ok := w.fgis[fn]; ok {
+	return w.spliced(fn, w.fgis, w.isInlSite)
+}
+
+// FGFlat is fn's graph with every private helper of its package spliced in (fresh or not), as long
+// as it is called once in the graph, statically, and has no defer/go of its own. Rules that follow
+// one message through a Receive function use it: whether a case body is written in place, in a
+// handler method, or split between the two does not change the flattened graph.
+func (w *World) FGFlat(fn *ssa.Function) *FG {
+	if w.fgflat == nil {
+		w.fgflat = map[*ssa.Function]*FG{}
+	}
+	pkg := fnPkgPath(fn)
+	return w.spliced(fn, w.fgflat, func(c *ssa.Call) bool {
+		h := c.Call.StaticCallee()
+		if h == nil || h.Blocks == nil || h.Synthetic != "" || !w.isLib(h) || fnPkgPath(h) != pkg || h == fn || c.Call.IsInvoke() {
+			return false
+		}
+		if h.Object() != nil && h.Object().Exported() {
+			return false
+		}
+		if h.Recover != nil || len(c.Call.Args) != len(h.Params) {
+			return false
+		}
+		for _, b := range h.Blocks {
+			for _, in := range b.Instrs {
+				switch in.(type) {
+				case *ssa.Defer, *ssa.RunDefers, *ssa.Go:
+					return false
+				}
+			}
+		}
+		return true
+	})
+}
+
+func (w *World) spliced(fn *ssa.Function, cache map[*ssa.Function]*FG, isSite func(*ssa.Call) bool) *FG {
+	if g, ok := cache[fn]; ok {
 		if g.inl != nil && w.curLock == 0 {
 			w.cur = g
 		}
@@ -299,7 +344,7 @@ func (w *World) FGI(fn *ssa.Function) *FG {
 		collect = func(f *ssa.Function) {
 			for _, b := range f.Blocks {
 				for _, in := range b.Instrs {
-					if c, ok := in.(*ssa.Call); ok && w.isInlSite(c) && !excluded[c.Call.StaticCallee()] {
+					if c, ok := in.(*ssa.Call); ok && isSite(c) && !excluded[c.Call.StaticCallee()] && c.Call.StaticCallee() != fn {
 						h := c.Call.StaticCallee()
 						count[h]++
 						if count[h] == 1 {
@@ -324,7 +369,7 @@ func (w *World) FGI(fn *ssa.Function) *FG {
 	}
 	if len(calls) == 0 {
 		g := w.FG(fn)
-		w.fgis[fn] = g
+		cache[fn] = g
 		return g
 	}
 	g := &FG{fn: fn, idx: map[ssa.Instruction]int{}, first: map[*ssa.BasicBlock]int{}, inl: map[int]bool{},
@@ -381,6 +426,7 @@ func (w *World) FGI(fn *ssa.Function) *FG {
 		g.succ[n] = []int{g.first[h.Blocks[0]]}
 		g.inl[n] = true
 		var ret *ssa.Return
+		var rets [][]ssa.Value
 		nret := 0
 		onNil, onNonNil, threaded := w.nilTestAfter(g, c)
 		for _, b := range h.Blocks {
@@ -398,6 +444,7 @@ func (w *World) FGI(fn *ssa.Function) *FG {
 						}
 					}
 					ret = r
+					rets = append(rets, r.Results)
 					nret++
 				}
 			}
@@ -407,6 +454,11 @@ func (w *World) FGI(fn *ssa.Function) *FG {
 		}
 		if nret == 1 && len(ret.Results) > 0 {
 			g.csub[c] = ret.Results
+		} else if nret > 1 && len(ret.Results) > 0 {
+			if g.csubM == nil {
+				g.csubM = map[*ssa.Call][][]ssa.Value{}
+			}
+			g.csubM[c] = rets
 		}
 	}
 	for n, ss := range g.succ {
@@ -414,7 +466,7 @@ func (w *World) FGI(fn *ssa.Function) *FG {
 			g.pred[s] = append(g.pred[s], n)
 		}
 	}
-	w.fgis[fn] = g
+	cache[fn] = g
 	if w.curLock == 0 {
 		w.cur = g
 	}
